@@ -455,6 +455,7 @@ def mon_c15(k, domain, wildcard=False):
     dl = [l.lower() for l in proto.labels_from_dotted(domain.encode())]
     if wildcard:
         dl = dl[1:]
+    vchal = {}      # slot -> challenge of its most recent VACK
     users = {}
     offered = set()
     fsizes = set()
@@ -501,7 +502,14 @@ def mon_c15(k, domain, wildcard=False):
         c = text[:1].lower()
         if c == b"v":
             if p[:4] == b"VACK" and len(p) >= 9:
+                prev_ = users.get(p[8])
                 users[p[8]] = _Down()
+                if prev_ is not None and vchal.get(p[8]) == p[4:8]:
+                    # the same challenge handed out again for the same slot: not a new session but the old one (its login
+                    # still stands), so the size it has set still binds
+                    users[p[8]].F = prev_.F
+                    stats["c15_same_challenge_again"] = stats.get("c15_same_challenge_again", 0) + 1
+                vchal[p[8]] = p[4:8]
                 # a new session starts on this slot: answers remembered for its previous occupant are gone, so an
                 # old name arriving again is an ordinary query of the new session, judged like any other
                 answered = {a for a in answered if _slot_of_name(a[0], dl) != p[8]}
